@@ -256,6 +256,10 @@ pub struct SeqCase {
     pub threads: u8,
     pub order: Vec<u8>,
     pub jitter: Vec<u8>,
+    /// single-threaded finish only: every leftover object is dropped while its thread unwinds
+    /// from a panic (the usual fate of a unit of work whose handler panicked)
+    #[serde(default)]
+    pub unwinding: bool,
 }
 
 pub fn check_seq(case: &SeqCase) -> CaseResult {
@@ -311,9 +315,16 @@ pub fn check_seq(case: &SeqCase) -> CaseResult {
     let started = r.sink.started.clone();
     let force_dropped_before = m.force_dropped;
     if nthreads <= 1 {
+        if case.unwinding && n > 0 {
+            classes.push("final-drops-while-unwinding");
+        }
         for (i, o) in ordered {
             started.fetch_or(1 << i, Ordering::SeqCst);
-            drop(o);
+            if case.unwinding {
+                no_panic("uow-drop-while-unwinding", || drop_while_unwinding(o))?;
+            } else {
+                drop(o);
+            }
         }
     } else {
         classes.push("concurrent-final-drops");
@@ -426,6 +437,7 @@ fn exhaustive(ctx: &mut Ctx) {
                             threads: 0,
                             order: vec![],
                             jitter: vec![],
+                            unwinding: false,
                         };
                         match check_seq(&case) {
                             Ok(c) => {
@@ -500,6 +512,7 @@ fn exhaustive(ctx: &mut Ctx) {
             threads: 0,
             order: vec![],
             jitter: vec![],
+            unwinding: false,
         };
         ctx.report_violation("c06-random", f, serde_json::to_value(&case).unwrap(), format!("{case:?}"));
     }
@@ -528,17 +541,18 @@ pub fn run(ctx: &mut Ctx) {
     ctx.explore(
         SubCfg::new(
             "c06-random",
-            "random op sequences up to length 60 (unbounded numbers of guards/handles), single-threaded, model compared after every op; the leftovers are dropped in a generated order. Non-trivial as in the exhaustive sub-check",
+            "random op sequences up to length 60 (unbounded numbers of guards/handles), single-threaded, model compared after every op; the leftovers are dropped in a generated order, in 20% of the cases while the dropping thread unwinds from a panic. Non-trivial as in the exhaustive sub-check",
             if q { 30_000 } else { 1_000_000 },
         )
         .threads(ctx.tier.pick(8, 16))
-        .mandatory(&["force-drop-while-flush-guards-alive", "guard-created-after-force-drop", "guard-outlives-owner"]),
+        .mandatory(&["force-drop-while-flush-guards-alive", "guard-created-after-force-drop", "guard-outlives-owner", "final-drops-while-unwinding"]),
         || {
-            (prop::collection::vec(arb_op(), 0..60), prop::collection::vec(any::<u8>(), 0..12)).prop_map(|(ops, order)| SeqCase {
+            (prop::collection::vec(arb_op(), 0..60), prop::collection::vec(any::<u8>(), 0..12), prop::bool::weighted(0.2)).prop_map(|(ops, order, unwinding)| SeqCase {
                 ops,
                 threads: 0,
                 order,
                 jitter: vec![],
+                unwinding,
             })
         },
         check_seq,
@@ -567,6 +581,7 @@ pub fn run(ctx: &mut Ctx) {
                         threads,
                         order,
                         jitter,
+                        unwinding: false,
                     }
                 })
         },
